@@ -2,6 +2,7 @@ package main
 
 import (
 	"fmt"
+	"os"
 	"runtime"
 	"strings"
 	"sync"
@@ -56,6 +57,7 @@ const (
 	opCallPublished   // call a function somebody published
 	opModifyCfg       // modify a Config value after it was used by Parse (C19)
 	opParseKept       // Parse with a long-lived Config value (C19)
+	opCustom          // property-specific operation (closure)
 )
 
 // Op is one planned operation.
@@ -75,10 +77,11 @@ type Op struct {
 	Got       string
 	GotLog    string
 	Done      bool
+	Do        func(t *Task, o *Op)
 }
 
 func (o *Op) String() string {
-	k := [...]string{"Parse", "Call", "CallShared", "Retrieve", "Scribble", "Append", "ParseFail", "ParseInject", "Publish", "CallPublished", "ModifyCfg", "ParseKept"}[o.Kind]
+	k := [...]string{"Parse", "Call", "CallShared", "Retrieve", "Scribble", "Append", "ParseFail", "ParseInject", "Publish", "CallPublished", "ModifyCfg", "ParseKept", "Eval"}[o.Kind]
 	s := k
 	if o.Path != nil {
 		s += " path=" + fmt.Sprintf("%q", o.Path.Text) + " " + o.Cfg.String()
@@ -331,8 +334,15 @@ func pathKey(o *Op) string {
 	return ""
 }
 
+// debugNoJudge (env VSIM_DEBUG_NOJUDGE=1) disables outcome comparison; used only by the
+// machinery's own sensitivity tests to show that the race oracle fires on its own.
+var debugNoJudge = os.Getenv("VSIM_DEBUG_NOJUDGE") == "1"
+
 func (w *World) judge(t *Task, o *Op, expect, expectLog string) {
 	t.judged++
+	if debugNoJudge {
+		return
+	}
 	if o.Got != expect {
 		t.fail(w.prop+":outcome-differs-from-run-alone", pathKey(o),
 			fmt.Sprintf("%v\n  got      %s\n  expected %s", o, clip(o.Got, 400), clip(expect, 400)))
@@ -422,14 +432,11 @@ func (w *World) execOp(t *Task, idx int) {
 			break
 		}
 		t.probe("called-published-function")
-		// the expectation belongs to whatever was published; evaluated against its own reference
 		d := w.docOf(t, o.Doc)
 		_, out := safeCall(pf.Fn, d.Val)
 		o.Got, o.GotLog, o.Done = out, t.rec.log(), true
-		if w.judgeOutcome && simrt.Aborted() == 0 {
-			if exp, ok := w.publishedExpect(pf, o.Doc); ok {
-				w.judge(t, o, exp, o.GotLog)
-			}
+		if w.judgeOutcome && o.HasExpect && simrt.Aborted() == 0 {
+			w.judge(t, o, o.Expect, o.ExpectLog)
 		}
 	case opPublish:
 		if o.Slot < len(t.fns) && t.fns[o.Slot] != nil && t.fns[o.Slot].Fn != nil {
@@ -463,6 +470,9 @@ func (w *World) execOp(t *Task, idx int) {
 				w.judge(t, o, o.Expect, o.ExpectLog)
 			}
 		}
+	case opCustom:
+		o.Do(t, o)
+		o.Done = true
 	case opScribble:
 		if len(t.results) > 0 {
 			k := t.results[o.Arg%len(t.results)]
@@ -503,12 +513,6 @@ func (w *World) execOp(t *Task, idx int) {
 	if w.checkDocsAfterOp {
 		w.checkDocs(t, o)
 	}
-}
-
-// publishedExpect finds the pre-phase expectation for a published function on a document:
-// the publisher's plan holds a Call of that slot on that document if the generator made one.
-func (w *World) publishedExpect(pf *ParsedFn, doc int) (string, bool) {
-	return "", false
 }
 
 func (w *World) taskMain(t *Task, wg *sync.WaitGroup) {
